@@ -837,7 +837,6 @@ func TestC14(t *testing.T) {
 	s.Add(explore.Scenario{Name: "helpers", Run: helperScenario})
 	s.Add(explore.Scenario{Name: "my-ip", Run: myIPScenario})
 	s.Add(explore.Scenario{Name: "helper-sequences-quick", Tiers: []string{"quick"}, Run: func(x *explore.X) { sequenceScenario(x, 2) }})
-	s.Add(explore.Scenario{Name: "helper-sequences-thorough", Tiers: []string{"thorough"}, Run: func(x *explore.X) { sequenceScenario(x, 3) }})
 	s.Add(explore.Scenario{Name: "result-and-entry-point", Run: resultScenario})
 	s.Add(explore.Scenario{Name: "trees-quick", Tiers: []string{"quick"}, Run: func(x *explore.X) { treeScenario(x, false) }})
 	s.Add(explore.Scenario{Name: "trees-thorough", Tiers: []string{"thorough"}, Run: func(x *explore.X) { treeScenario(x, true) }})
@@ -847,6 +846,7 @@ func TestC14(t *testing.T) {
 		Run: func(x *explore.X) { schedScenario(t, x) }})
 	s.Add(explore.Scenario{Name: "entry-points-agree", Run: entryPointsScenario})
 	s.Add(explore.Scenario{Name: "pool", Remote: true, Run: func(x *explore.X) { bubble.Run(t, x, func() { poolScenario(x) }) }})
+	s.Add(explore.Scenario{Name: "helper-sequences-thorough", Tiers: []string{"thorough"}, Run: func(x *explore.X) { sequenceScenario(x, 3) }})
 	s.Main()
 }
 
